@@ -159,7 +159,18 @@ func stepKnow(fi *FactInfo, p, s *ssa.BasicBlock, k knowMap) knowMap {
 			}
 		}
 	}
-	if len(phis) == 0 && len(k) == 0 && dupCond == nil {
+	// the outcome of an error-holder test (h.HasError()): the holder's error cell is latched, so what
+	// is read from it later on this path is non-nil exactly if this test said so
+	var latch ssa.Value
+	latchPol := false
+	if len(p.Instrs) > 0 {
+		if iff, ok := p.Instrs[len(p.Instrs)-1].(*ssa.If); ok && len(p.Succs) == 2 && p.Succs[0] != p.Succs[1] {
+			if call, isCall := iff.Cond.(*ssa.Call); isCall && isHolderTest(call) {
+				latch, latchPol = call, p.Succs[0] == s
+			}
+		}
+	}
+	if len(phis) == 0 && len(k) == 0 && dupCond == nil && latch == nil {
 		return k
 	}
 	nk := knowMap{}
@@ -175,6 +186,13 @@ func stepKnow(fi *FactInfo, p, s *ssa.BasicBlock, k knowMap) knowMap {
 			nk[dupCond] = 1
 		} else {
 			nk[dupCond] = -1
+		}
+	}
+	if latch != nil && !backEdge {
+		if latchPol {
+			nk[latch] = 1
+		} else {
+			nk[latch] = -1
 		}
 	}
 	// all phis of s are assigned simultaneously from the values on the edge
@@ -338,6 +356,25 @@ func returnIsFailure(fi *FactInfo, r *ssa.Return, ei int, k knowMap) bool {
 	if evalKnow(fi, r.Block(), nil, v, k, 0) == 1 {
 		return true
 	}
+	// h.Err / h.GetError() after h.HasError() answered true on this path
+	var holder ssa.Value
+	switch x := v.(type) {
+	case *ssa.UnOp:
+		if fa, ok := x.X.(*ssa.FieldAddr); ok && x.Op == token.MUL {
+			holder = fa.X
+		}
+	case *ssa.Call:
+		if cal, _ := calleeOf(x.Common()); cal != nil && cal.Name() == "GetError" {
+			holder = callRecv(x.Common())
+		}
+	}
+	if holder != nil {
+		for kv, r := range k {
+			if call, ok := kv.(*ssa.Call); ok && r == 1 && isHolderTest(call) && sameHolder(callRecv(call.Common()), holder) {
+				return true
+			}
+		}
+	}
 	return classifyErr(fi, r.Block(), v, 0) == errNonNil
 }
 
@@ -379,4 +416,40 @@ func resolveCond(b *ssa.BasicBlock, k knowMap) ssa.Value {
 		return nil
 	}
 	return c
+}
+
+// isHolderTest: a call of HasError() on an error holder.
+func isHolderTest(call *ssa.Call) bool {
+	if call.Call.IsInvoke() {
+		return call.Call.Method.Name() == "HasError"
+	}
+	cal, _ := calleeOf(call.Common())
+	return cal != nil && cal.Name() == "HasError"
+}
+
+// sameHolder: a and b denote the same holder object (same value, or the same address / embedded part of it).
+func sameHolder(a, b ssa.Value) bool {
+	strip := func(v ssa.Value) ssa.Value {
+		for i := 0; i < 4; i++ {
+			switch x := v.(type) {
+			case *ssa.FieldAddr:
+				if x.Field == 0 {
+					v = x.X
+					continue
+				}
+			case *ssa.MakeInterface:
+				v = x.X
+				continue
+			case *ssa.ChangeInterface:
+				v = x.X
+				continue
+			}
+			break
+		}
+		return v
+	}
+	if a == nil || b == nil {
+		return false
+	}
+	return a == b || sameAddr(a, b) || strip(a) == strip(b)
 }
